@@ -302,6 +302,39 @@ def run(ctx):
                 ctx.count("straddling-varints." + ep.name)
                 rt.judge(ctx, m, proto, vals, data, res, ep.name, "bin", "%s: %d items with multi-byte varints in %d bytes (phase %d, %d blocks) read by %s" % (pname, n, len(data), phase, len(sizes), ep.name), {"straddling_varints": True})
             ctx.case(("straddling-varints", pname, phase, len(data)))
+    # a block of one-byte items that ends exactly where the reader's 64 KiB buffer is exhausted (and one byte before / after), followed by more blocks; read
+    # with batch capacities that fill exactly at that block's last item (the block length, its half, a third), with smaller and with larger ones
+    from vlib.refcodec import put_uvarint as _puv
+    proto = pkg.find("BtNumU8")
+    prefix = len(c.encode_stream(proto, m.schema("BtNumU8"), [7, [], ""], upto=1))
+    for boundary in (65536, 131072):
+        for delta in (-1, 0, 1):
+            n1 = None
+            for cand in range(boundary - prefix - 6, boundary - prefix):
+                hdr = bytearray()
+                _puv(hdr, cand)
+                if prefix + len(hdr) + cand == boundary + delta:
+                    n1 = cand
+            if n1 is None:
+                continue
+            r = rng("C17aligned", boundary, delta)
+            tails = [300, 7, 1]
+            items = [r.randrange(256) for _ in range(n1 + sum(tails))]
+            vals = [7, items, "end"]
+            data = c.encode_stream(proto, m.schema("BtNumU8"), vals, partitions={1: [n1] + tails})
+            caps = [n1, n1 // 2 if n1 % 2 == 0 else n1 // 3, n1 - 1, n1 + 1, 64, 1, n1 + 300]
+            for cap in caps:
+                ep = rt.CppEndpoint(m, "plain", bufs=[cap])
+                res = ep.copy("BtNumU8", "bin", "bin", data)
+                ctx.ev()
+                ctx.count("aligned-block-ends.cpp")
+                rt.judge(ctx, m, proto, vals, data, res, ep.name, "bin", "a block of %d one-byte items ending at byte %d%+d, then blocks of %s, read with batch capacity %d" % (n1, boundary, delta, tails, cap), {"aligned_block_end": True})
+            for ep in (rt.PyEndpoint(m), rt.PyEndpoint(m, mode="list")):
+                res = ep.copy("BtNumU8", "bin", "bin", data)
+                ctx.ev()
+                ctx.count("aligned-block-ends.py")
+                rt.judge(ctx, m, proto, vals, data, res, ep.name, "bin", "a block of %d one-byte items ending at byte %d%+d read by %s" % (n1, boundary, delta, ep.name), {"aligned_block_end": True})
+            ctx.case(("aligned-block-end", boundary, delta))
     ctx.sample({"protocols": [p.name for p in pkg.protocols()], "capacities": CAPS, "jobs": len(jobs)})
     ctx.sample({"example_partitions_n4": partitions(4)})
     m.close()
